@@ -215,7 +215,11 @@ def run (op : String) (a : Json) : Option (Except String Json) :=
   | "c18.pyeq" => some do
       let x ← getVal (a.getObjValD "a")
       let y ← getVal (a.getObjValD "b")
-      pure <| ok (jBool (pyEq x y))
+      -- `a == b`, or the exception a signaling NaN makes it raise
+      pure <| match eqRaises x y with
+        | some true => err "InvalidOperation"
+        | none => err "unmodelled"
+        | some false => ok (jBool (pyEq x y))
   | _ => none
 
 end OpsCode
